@@ -130,6 +130,10 @@ def install(ex):
         return s
     ex.model(r'^std::str::<impl str>::to_lowercase$', to_lowercase)
 
+    def display_to_string(ctx, p):
+        return AbsStr(False, 'Display')
+    ex.model(r'^<board::(ply::Ply|square::Square|piece::Kind) as std::string::ToString>::to_string$', display_to_string)
+
     def fmt_format(ctx, args):
         return AbsStr(False, 'format!')
     ex.model(r'^std::fmt::format$', fmt_format)
